@@ -14,6 +14,7 @@ import (
 	"fmt"
 	"go/ast"
 	"go/parser"
+	"go/printer"
 	"go/token"
 	"os"
 	"path/filepath"
@@ -47,12 +48,24 @@ type SkelSpec struct {
 	Calls []string `json:"calls"` // selector suffixes that count as effectful (e.g. "storage.Get", "mu.Lock")
 }
 
+// CondSpec: the source text of every `if` condition of a function, in source order
+// (ties inline decision expressions that are not functions of their own).
+type CondSpec struct {
+	Dir  string `json:"dir"`
+	Recv string `json:"recv"`
+	Func string `json:"func"`
+	Name string `json:"name"` // Lean name
+}
+
 type Spec struct {
 	Module  string     `json:"module"`  // output file Gen/<Module>.lean
 	Imports []string   `json:"imports"` // other Gen modules this one refers to
 	Consts []ConstSpec `json:"consts"`
 	Preds  []PredSpec  `json:"preds"`
 	Skels  []SkelSpec  `json:"skels"`
+	Conds  []CondSpec  `json:"conds"`
+	// full Lean module names defining the receiver structures the predicates refer to
+	LeanImports []string `json:"lean_imports"`
 }
 
 var fset = token.NewFileSet()
@@ -605,6 +618,48 @@ func genSkel(root string, ss *SkelSpec, out *strings.Builder) {
 	fmt.Fprintf(out, "def %s : List String := [%s]\n", ss.Name, strings.Join(qs, ", "))
 }
 
+// genConds emits the `if` conditions (and `x := <bool expr>` of && / || / comparison shape) of a function as source text.
+func genConds(root string, cs *CondSpec, out *strings.Builder) {
+	p := loadPkg(root, cs.Dir)
+	key := cs.Func
+	if cs.Recv != "" {
+		key = cs.Recv + "." + cs.Func
+	}
+	fd, ok := p.funcs[key]
+	if !ok {
+		die("conds: function %s not found in %s", key, cs.Dir)
+	}
+	src := func(e ast.Expr) string {
+		var sb strings.Builder
+		printer.Fprint(&sb, fset, e)
+		return strings.Join(strings.Fields(sb.String()), " ")
+	}
+	var conds []string
+	ast.Inspect(fd.Body, func(n ast.Node) bool {
+		switch n := n.(type) {
+		case *ast.IfStmt:
+			c := src(n.Cond)
+			if n.Init != nil {
+				var sb strings.Builder
+				printer.Fprint(&sb, fset, n.Init)
+				c = strings.Join(strings.Fields(sb.String()), " ") + "; " + c
+			}
+			conds = append(conds, leanStr(c))
+		case *ast.AssignStmt:
+			if len(n.Lhs) == 1 && len(n.Rhs) == 1 {
+				if be, ok := n.Rhs[0].(*ast.BinaryExpr); ok {
+					switch be.Op {
+					case token.LAND, token.LOR, token.EQL, token.NEQ:
+						conds = append(conds, leanStr(src(n.Lhs[0])+" := "+src(n.Rhs[0])))
+					}
+				}
+			}
+		}
+		return true
+	})
+	fmt.Fprintf(out, "def %s : List String := [%s]\n", cs.Name, strings.Join(conds, ", "))
+}
+
 func selStr(e ast.Expr) string {
 	switch e := e.(type) {
 	case *ast.Ident:
@@ -645,6 +700,9 @@ func genModule(repo string, spec *Spec, outDir string) {
 	for _, im := range spec.Imports {
 		cs.WriteString("import TunnoxModel.Gen." + im + "\n")
 	}
+	for _, im := range spec.LeanImports {
+		cs.WriteString("import " + im + "\n")
+	}
 	cs.WriteString("open Tunnox.PredPrelude\nnamespace Gen\n\n")
 	for _, c := range spec.Consts {
 		p := loadPkg(repo, c.Dir)
@@ -678,6 +736,14 @@ func genModule(repo string, spec *Spec, outDir string) {
 			genSkel(repo, &spec.Skels[i], &cs)
 		}
 		cs.WriteString("end Skel\n\n")
+	}
+	if len(spec.Conds) > 0 {
+		cs.WriteString("namespace Cond\n")
+		sort.SliceStable(spec.Conds, func(i, j int) bool { return spec.Conds[i].Name < spec.Conds[j].Name })
+		for i := range spec.Conds {
+			genConds(repo, &spec.Conds[i], &cs)
+		}
+		cs.WriteString("end Cond\n\n")
 	}
 	cs.WriteString("end Gen\n")
 	writeIfChanged(filepath.Join(outDir, spec.Module+".lean"), cs.String())
